@@ -153,11 +153,16 @@ def _normalizer(model, pm, node, name, prune=True, cls=None):
     meths = {}
     if cls is not None:
         # private methods of the class (self._helper(...)): inlined like private module-level helpers
-        for m_, f_ in cls.methods.items():
-            if m_.startswith('_') and not m_.startswith('__') and m_ != name:
-                allf['meth:' + m_] = f_.node
-                meths[m_] = 'meth:' + m_
-                priv.add('meth:' + m_)
+        try:
+            lineage = list(model.mro(cls))
+        except Exception:  # noqa
+            lineage = [cls]
+        for c_ in lineage:                   # own helpers first, then inherited ones
+            for m_, f_ in c_.methods.items():
+                if m_.startswith('_') and not m_.startswith('__') and m_ != name and m_ not in meths:
+                    allf['meth:' + m_] = f_.node
+                    meths[m_] = 'meth:' + m_
+                    priv.add('meth:' + m_)
     if priv:
         nz.inliner = Inlining(allf, SHAPES, known, True, gl, lambda n_: n_ in priv and n_ != name)
         nz.inliner.self_methods = meths
